@@ -130,7 +130,7 @@ func RunSchedules(c *Ctx, scs []*SScenario, plan SPlan, rep *Report) {
 			if plan.Race && plan.RaceMaxBound > 0 && (b > plan.RaceMaxBound || b < 0 || (sc.Heavy && b >= 1)) {
 				pool = plainPool
 			}
-			cache := b < 0
+			cache := true // sound for bounded runs too: the key then includes the running thread and the cost so far
 			o := sc.opts(b, cache)
 			roots, st := rt.Split(sc.Run, o, c.Workers*20)
 			var jobs []json.RawMessage
